@@ -86,6 +86,10 @@ def build_kinds(rng, cap):
     fs_hdr = struct.pack('!HBBB', 1, 133, 0, 0)
     K['flowspec-rules'] = dict(pool=[refenc.flowspec_rule_bytes(gen.flowspec_rule(rng)) for _ in range(120)],
                                dec=lambda d: MpReachNLRI.parse(fs_hdr + d)['nlri'], join=cat)
+    # the same rules withdrawn: MP_UNREACH_NLRI has its own copy of the rule loop
+    from yabgp.message.attribute.mpunreachnlri import MpUnReachNLRI
+    K['flowspec-rules-withdrawn'] = dict(pool=list(K['flowspec-rules']['pool']),
+                                         dec=lambda d: MpUnReachNLRI.parse(struct.pack('!HB', 1, 133) + d)['withdraw'], join=cat)
     K['communities'] = dict(pool=[struct.pack('!I', refenc.community_value(gen.community_text(rng))) for _ in range(80)] +
                             [struct.pack('!I', v) for v in sorted(gen.WELL_KNOWN)],
                             dec=lambda d: Community.parse(d), join=cat)
